@@ -35,7 +35,7 @@ class C03(Check):
         # A gap of the level record that swallows no grid instant (logger faster than the grid, a few
         # readings missing): the label changes between two neighbouring instants that both carry a level.
         # "Neither extends across a gap" must hold there too (seeded change C03-4).
-        breaks = [1, 2] if self.tier == 'quick' else list(range(G))
+        breaks = [1, 2] if self.tier == "quick" else list(range(1, G - 1))
         self.bounds['DB level']['stretch boundaries without a NULL instant'] = 'one, after instant %s' % breaks
         for b in breaks:
             exp = symx.explore(classify_db.harness, {'G': G, 'step_s': 1800, 'props': ('C03',), 'seed': self.seed,
